@@ -5,7 +5,7 @@ root = os.path.dirname(os.path.dirname(os.path.abspath(__file__)))
 sd = os.path.join(root, 'seeded')
 res = json.load(open(os.path.join(sd, 'RESULTS.json')))
 rows = ['| id | written for | change | needs | verified | caught by | missed by |', '|---|---|---|---|---|---|---|']
-for mid in sorted(d for d in os.listdir(sd) if os.path.isdir(os.path.join(sd, d))):
+for mid in sorted(d for d in os.listdir(sd) if os.path.isfile(os.path.join(sd, d, 'meta.json'))):
     m = json.load(open(os.path.join(sd, mid, 'meta.json')))
     r = res.get(mid, {})
     ver = 'yes' if r.get('applies') and r.get('suite_passes_with_patch') and r.get('demo_fails_with_patch') and r.get('demo_passes_without_patch') else ('not run' if not r else 'NO')
